@@ -421,8 +421,10 @@ func (s ttxStream) render() ([]byte, []ttxExpCue) {
 		return rowUnit(otherMag, y, append(append([]byte{0x0b, 0x0b}, txt...), 0x0a, 0x0a), nil, 0x03)
 	}
 	if s.LeadIn > 0 {
-		// a PES on the teletext PID before the first instance: only a time-filling header / stuffing
-		send(ttxPID, s.LeadIn, stuffingUnit())
+		// a PES on the teletext PID before the first instance: stuffing, and a page without the subtitle flag that
+		// must not be picked when the page is auto-detected (nor contribute when it is given)
+		early := ttxHeader{Mag: s.Mag, Tens: (s.Tens + 3) % 10, Units: (s.Units + 1) % 10, Serial: s.Serial}
+		send(ttxPID, s.LeadIn, stuffingUnit(), headerUnit(early, 0x03), rowUnit(s.Mag, 3, append(append([]byte{0x0b, 0x0b}, "NOT A SUBTITLE PAGE"...), 0x0a, 0x0a), nil, 0x03))
 	}
 	if s.OtherPIDFirst {
 		// video PES on another PID with an earlier PTS must not move the time origin
